@@ -4,6 +4,7 @@ import (
 	"bytes"
 	"fmt"
 	"math"
+	"math/big"
 	"testing"
 
 	"github.com/peterstace/simplefeatures/geom"
@@ -45,12 +46,41 @@ func c18WKBEqual(a, b gm.G) bool {
 }
 
 func posEq(a, b []gm.F) bool {
+	if c18Tol != nil {
+		return posEqTol(a, b)
+	}
 	for i := range a {
 		if float64(a[i]) != float64(b[i]) { // -0 == +0; inputs are finite
 			return false
 		}
 	}
 	return true
+}
+
+// c18Tol, when set, makes posEq compare XY within that distance (exact
+// arithmetic) and Z/M exactly; c18TolUncertain is raised when a distance is
+// within 1e-9 (relative) of the tolerance, where float rounding may decide.
+var (
+	c18Tol          *float64
+	c18TolUncertain bool
+)
+
+func posEqTol(a, b []gm.F) bool {
+	for i := 2; i < len(a); i++ {
+		if float64(a[i]) != float64(b[i]) {
+			return false
+		}
+	}
+	d2 := exact.Dist2(exact.P(float64(a[0]), float64(a[1])), exact.P(float64(b[0]), float64(b[1])))
+	t := exact.R(*c18Tol)
+	t2 := new(big.Rat).Mul(t, t)
+	diff := new(big.Rat).Sub(d2, t2)
+	diff.Abs(diff)
+	margin := new(big.Rat).Mul(t2, big.NewRat(1, 1000000000))
+	if diff.Cmp(margin) <= 0 {
+		c18TolUncertain = true
+	}
+	return d2.Cmp(t2) <= 0
 }
 
 type lineInfo struct {
@@ -74,27 +104,26 @@ func analyseLine(fs []gm.F, ct int) lineInfo {
 	}
 	li.closed = n >= 2 && pts[0].Eq(pts[n-1])
 	li.fullClosed = li.closed && posEq(fs[:d], fs[(n-1)*d:])
-	for i := 0; i+1 < n; i++ {
-		if pts[i].Eq(pts[i+1]) {
-			li.clean = false
-		}
-	}
 	if !li.closed {
 		return li
 	}
-	if n < 4 {
-		li.clean = false
+	// Repeated consecutive vertices do not affect simplicity (zero-length
+	// segments carry no points of their own): test the de-duplicated chain.
+	dp := pts[:1]
+	for i := 1; i < n; i++ {
+		if !pts[i].Eq(dp[len(dp)-1]) {
+			dp = append(dp, pts[i])
+		}
+	}
+	if len(dp) < 4 {
+		li.clean = false // degenerate closed line: ring status not well defined
 		return li
 	}
-	if !li.clean {
-		return li
-	}
-	// simple: non-adjacent segments disjoint, adjacent ones share only the vertex
-	ns := n - 1
+	ns := len(dp) - 1
 	simple := true
 	for i := 0; i < ns && simple; i++ {
 		for j := i + 1; j < ns; j++ {
-			in := exact.Intersect(pts[i], pts[i+1], pts[j], pts[j+1])
+			in := exact.Intersect(dp[i], dp[i+1], dp[j], dp[j+1])
 			adjacent := j == i+1 || (i == 0 && j == ns-1)
 			if in.Kind == 2 || (in.Kind == 1 && !adjacent) {
 				simple = false
@@ -513,6 +542,23 @@ func c18Gen(t *rapid.T, cx *h.Ctx) C18Case {
 	}
 	c := C18Case{A: a}
 	c.Tol = math.Ldexp(1, rapid.IntRange(-8, 4).Draw(t, "tolexp"))
+	if fam == 2 && rapid.Bool().Draw(t, "tolfamily") {
+		// tolerance-matching family: small integer half-grid, B = shuffled and jittered A
+		c.A = c18GridGeom(t)
+		c.Tol = rapid.SampledFrom([]float64{0.75, 1.25, 0.3}).Draw(t, "gridtol")
+		b := reorderAll(t, c.A)
+		b = b.MapPositions(func(p []gm.F, ct int) []gm.F {
+			p[0] = gm.F(float64(p[0]) + float64(rapid.IntRange(-2, 2).Draw(t, "jx"))/2)
+			return p
+		})
+		c.B, c.How = b, "grid-shuffled-jittered"
+		c.C, c.HowC = mutate(t, c.B, c.Tol)
+		return c
+	}
+	if fam != 0 && rapid.IntRange(0, 3).Draw(t, "dupvertex") == 0 {
+		c.A = dupRingVertex(t, c.A)
+	}
+	a = c.A
 	c.B, c.How = mutate(t, a, c.Tol)
 	c.C, c.HowC = mutate(t, c.B, c.Tol)
 	return c
@@ -558,6 +604,30 @@ func c18Check(c C18Case, cx *h.Ctx) *h.Failure {
 		}
 		if want && !gotIO {
 			return h.Failf("exactequals/ignoreorder-weaker", "ExactEquals(%s,%s) but not with IgnoreOrder%s", p.n1, p.n2, desc())
+		}
+	}
+	// IgnoreOrder and ToleranceXY together: order-insensitive matching where the
+	// member relation is "within tol" (not an equivalence, so the matching has to backtrack)
+	{
+		tol := c.Tol
+		c18Tol, c18TolUncertain = &tol, false
+		ok := true
+		wantBoth := eqIO(c.A, c.B, &ok)
+		c18Tol = nil
+		gotBoth := geom.ExactEquals(A, B, geom.IgnoreOrder, geom.ToleranceXY(c.Tol))
+		revBoth := geom.ExactEquals(B, A, geom.ToleranceXY(c.Tol), geom.IgnoreOrder)
+		switch {
+		case !ok || c18TolUncertain:
+			cx.Skip("both_options_undecided")
+		case gotBoth != revBoth:
+			return h.Failf("exactequals/both-asymmetric", "IgnoreOrder+ToleranceXY(%v): (A,B)=%v (B,A)=%v%s", c.Tol, gotBoth, revBoth, desc())
+		case gotBoth != wantBoth && (extremeRing(c.A) || extremeRing(c.B)) && wantBoth:
+			return h.Failf("exactequals/ignoreorder-ring-extreme-magnitude", "IgnoreOrder+ToleranceXY(%v) = false for rotated rings at extreme magnitude%s", c.Tol, desc())
+		case gotBoth != wantBoth:
+			return h.Failf("exactequals/both-options", "ExactEquals(A,B,IgnoreOrder,ToleranceXY(%v))=%v, brute-force matching says %v%s", c.Tol, gotBoth, wantBoth, desc())
+		}
+		if wantBoth && !plain[0] {
+			cx.Class("both-options-equal-but-not-plain")
 		}
 	}
 	// reflexive
@@ -664,4 +734,69 @@ func extremeRing(g gm.G) bool {
 		}
 	})
 	return found
+}
+
+// c18GridGeom: MultiPoint / MultiLineString / collection on a half-integer grid 0..3.
+func c18GridGeom(t *rapid.T) gm.G {
+	ct := rapid.IntRange(0, 1).Draw(t, "gct")
+	pos := func() []gm.F {
+		p := []gm.F{gm.F(float64(rapid.IntRange(0, 6).Draw(t, "gx")) / 2), gm.F(rapid.IntRange(0, 1).Draw(t, "gy"))}
+		if ct == 1 {
+			p = append(p, gm.F(rapid.IntRange(0, 1).Draw(t, "gz")))
+		}
+		return p
+	}
+	n := rapid.IntRange(2, 6).Draw(t, "gn")
+	switch rapid.IntRange(0, 2).Draw(t, "gkind") {
+	case 0:
+		g := gm.G{T: gm.MultiPoint, CT: ct}
+		for i := 0; i < n; i++ {
+			g.Mem = append(g.Mem, gm.G{T: gm.Point, CT: ct, Co: pos()})
+		}
+		return g
+	case 1:
+		g := gm.G{T: gm.MultiLineString, CT: ct}
+		for i := 0; i < n; i++ {
+			g.Mem = append(g.Mem, gm.G{T: gm.LineString, CT: ct, Co: append(pos(), pos()...)})
+		}
+		return g
+	default:
+		g := gm.G{T: gm.GeometryCollection, CT: ct}
+		for i := 0; i < n; i++ {
+			if rapid.Bool().Draw(t, "gpt") {
+				g.Mem = append(g.Mem, gm.G{T: gm.Point, CT: ct, Co: pos()})
+			} else {
+				g.Mem = append(g.Mem, gm.G{T: gm.LineString, CT: ct, Co: append(pos(), pos()...)})
+			}
+		}
+		return g
+	}
+}
+
+// dupRingVertex repeats one vertex of one ring/closed line consecutively
+// (possibly the start vertex); the point set and ring status are unchanged.
+func dupRingVertex(t *rapid.T, g gm.G) gm.G {
+	out := g.Norm().Clone()
+	var nodes [][]int
+	collect(out, nil, func(n gm.G) bool { return len(n.Rings) > 0 || (n.T == gm.LineString && len(n.Co) > 0) }, &nodes)
+	if len(nodes) == 0 {
+		return out
+	}
+	n := at(&out, nodes[rapid.IntRange(0, len(nodes)-1).Draw(t, "dupnode")])
+	d := gm.Dim(n.CT)
+	target := &n.Co
+	if len(n.Rings) > 0 {
+		target = &n.Rings[rapid.IntRange(0, len(n.Rings)-1).Draw(t, "dupring")]
+	}
+	cnt := len(*target) / d
+	i := rapid.IntRange(0, cnt-1).Draw(t, "dupat")
+	if i == cnt-1 && cnt > 1 {
+		i = 0
+	}
+	fs := *target
+	res := append([]gm.F(nil), fs[:(i+1)*d]...)
+	res = append(res, fs[i*d:(i+1)*d]...)
+	res = append(res, fs[(i+1)*d:]...)
+	*target = res
+	return out
 }
